@@ -29,8 +29,9 @@ Record case := {
   k_pert : option (Z * Z);    (* digest of the first perturbed request: configured seed, other seed *)
   k_twice : list (list Z * list Z)   (* per run: digests of the optimizer step that the workload executes twice
                                         (same step object, same configuration object, same start), first and second time;
-                                        and of the two run() calls of one BasicOptimizer object (requests, delivered
-                                        results, exit code) *)
+                                        of the two run() calls of one BasicOptimizer object (requests, delivered
+                                        results, exit code); and of one run on a fresh plug-in manager vs on a reused
+                                        manager on which the same plug-ins were registered after earlier lookups *)
 }.
 
 Definition foreign_of (j : Z) : Z -> Z := if Z.ltb j 0 then (fun g => Z.succ g) else (fun _ => j).
